@@ -1000,6 +1000,9 @@ pub open spec fn queue_measure(s: ProtocolState) -> int {
 }
 
 //@fn gneiss-mqtt/src/validate.rs validate_packet_outbound_internal props=C16 stub
+    // the panic condition of the real function (every validator but CONNECT's and PINGREQ's does `negotiated_settings.unwrap()`);
+    // proved in the validate unit under exactly this precondition (plus the size assumptions A-COUNT / A-VEC on user packets)
+    requires packet is Connect || packet is Pingreq || context.negotiated_settings is Some,
 //@end
 
 impl ProtocolState {
@@ -1435,7 +1438,7 @@ impl ConnectOptions {
 }
 
 impl ProtocolState {
-//@fn gneiss-mqtt/src/protocol.rs ProtocolState::operation_packet_passes_offline_queue_policy props=C15
+//@fn gneiss-mqtt/src/protocol.rs ProtocolState::operation_packet_passes_offline_queue_policy props=C15,C07
     ensures r == (self.state == ProtocolStateType::Connected || policy_keeps(*packet, self.config.offline_queue_policy)),
 //@end
 
@@ -1494,7 +1497,7 @@ impl ProtocolState {
         }),
 //@end
 
-//@fn gneiss-mqtt/src/protocol.rs ProtocolState::apply_connection_closed_to_current_operation props=C15,C04,C10,C11,C01
+//@fn gneiss-mqtt/src/protocol.rs ProtocolState::apply_connection_closed_to_current_operation props=C15,C04,C10,C11,C01,C06
     requires old(self).wf(),
     ensures final(self).wf(), r is Ok ==> final(self).current_operation is None,
         // during connection-closed handling (state already Disconnected) this never fails, whatever the half-written packet was
@@ -3367,7 +3370,7 @@ impl ProtocolState {
         (old(self).state == ProtocolStateType::Disconnected && (old(context).event is IncomingData || old(context).event is WriteCompletion || old(context).event is ConnectionClosed)) ==> r is Err,
 //@end
 
-//@fn gneiss-mqtt/src/protocol.rs ProtocolState::handle_user_event props=C15,C10,C01,C11
+//@fn gneiss-mqtt/src/protocol.rs ProtocolState::handle_user_event props=C15,C10,C01,C11,C07
     requires old(self).wf(), opid_budget(*old(self), 1),
         match context.event {
             UserEvent::Publish(p, o) => *p is Publish && o.response_handler is Some,
